@@ -88,6 +88,12 @@ class C02(Prop):
                                      ("implant_md5", "ABC"), ("bootable", 1), ("subvariant", None), ("additional_variants", ["x"]),
                                      ("mtime", "1"), ("disc_count", None), ("arch", ""), ("unified", None), ("disc_number", 1.5),
                                      ("checksums", {"md5": {"$other": True}})])
+                if n % 2:
+                    # falsy values of every type for every attribute, round-robin (legal ones must round-trip, the others be refused)
+                    f = F.rr(F.FIELDS)
+                    val = F.rr([None, False, 0, {"$float": "0.0"}, "", [], {}, {"$other": False}])
+                    if f in F.INT_FIELDS and isinstance(val, bool):
+                        val = 0                              # bool in an int attribute is the F22 stream
                 if f == "additional_variants":
                     img["unified"] = False
                 img[f] = val
